@@ -22,6 +22,34 @@ from pacti.utils.errors import ContractFormatError, PolyhedralSyntaxConvexExcept
 numeric = Union[int, float]
 
 
+def validate_compound_contract_dict(contract: Dict, contract_name: str) -> None:
+    """
+    Tell whether a contract dictionary can be read as a compound polyhedral contract.
+
+    Args:
+        contract: a dictionary to be analyzed.
+        contract_name: a name for the contract (used for error reporting).
+
+    Raises:
+        ContractFormatError: the provided contract is not well-formed.
+    """
+    if not isinstance(contract, dict):
+        raise ContractFormatError("Each contract should be a dictionary")
+    for kw in ("assumptions", "guarantees", "input_vars", "output_vars"):
+        if kw not in contract:
+            raise ContractFormatError(f'Keyword "{kw}" not found in contract {contract_name}')
+        value = contract[kw]
+        if not isinstance(value, list):
+            raise ContractFormatError(f'The "{kw}" in contract {contract_name} should be a list')
+        str_lists = [value] if kw in ("input_vars", "output_vars") else value
+        for str_list in str_lists:
+            if not isinstance(str_list, list):
+                raise ContractFormatError(f'The "{kw}" in contract {contract_name} should be lists of strings')
+            for str_item in str_list:
+                if not isinstance(str_item, str):
+                    raise ContractFormatError(f"The {kw} in contract {contract_name} should be defined as strings")
+
+
 def validate_contract_dict(  # noqa: WPS231 too much cognitive complexity
     contract: Dict, contract_name: str, machine_representation: bool
 ) -> None:
